@@ -1,5 +1,5 @@
 """C12 Request admission: only well-addressed version-4 requests are let in."""
-from vf.rt import P, cond, verdict, fail
+from vf.rt import P, cond, verdict, fail, untraced
 from vf.props.common import mk, packets_of, SIM_STUBS, SIM_OUTSIDE
 
 PROP = 'C12'
@@ -247,7 +247,7 @@ def by_method_session_transport(fl: int, mi: int, ti: int, ski: int, ui: int) ->
     pre: fl == P.FL and mi == P.M and 0 <= ti < len(TRANSPORTS) and 0 <= ski < len(SIDKINDS) and 0 <= ui < 3
     post: _ == ''
     """
-    return verdict(_admission(fl, 0, mi, 2, ti, ski, ui, 0))
+    return verdict(untraced(_admission, fl, 0, mi, 2, ti, ski, ui, 0))
 
 
 @cond(quick=dict(timeout=170, parts=dict(FL=[0, 1])), thorough=dict(timeout=600, parts=dict(FL=[0, 1])))
@@ -256,7 +256,7 @@ def by_version_and_jsonp(fl: int, mi: int, ei: int, ji: int, ski: int) -> str:
     pre: fl == P.FL and 0 <= mi <= 2 and 0 <= ei < len(EIOS) and 0 <= ji < len(JS) and 0 <= ski <= 1
     post: _ == ''
     """
-    return verdict(_admission(fl, 0, mi, ei, 1, ski, 0, ji))
+    return verdict(untraced(_admission, fl, 0, mi, ei, 1, ski, 0, ji))
 
 
 @cond(quick=dict(timeout=170, parts=dict(FL=[0, 1])), thorough=dict(timeout=600, parts=dict(FL=[0, 1])))
@@ -265,7 +265,7 @@ def by_configured_transports(fl: int, ci: int, ti: int, ski: int, ui: int, mi: i
     pre: fl == P.FL and 1 <= ci < len(CFGS) and 0 <= ti < len(TRANSPORTS) and 0 <= ski <= 2 and 0 <= ui <= 1 and 0 <= mi <= 1
     post: _ == ''
     """
-    return verdict(_admission(fl, ci, mi, 2, ti, ski, ui, 0))
+    return verdict(untraced(_admission, fl, ci, mi, 2, ti, ski, ui, 0))
 
 
 @cond(quick=dict(timeout=170, C=2, E=2, parts=dict(FL=[0, 1])), thorough=dict(timeout=900, C=3, E=5, parts=dict(FL=[0, 1])))
@@ -276,4 +276,4 @@ def full_cross_product_sample(fl: int, ci: int, mi: int, ei: int, ti: int, ski: 
     post: _ == ''
     """
     # the corner of the product the other conditions do not visit (unusual methods x odd headers x dead sessions)
-    return verdict(_admission(fl, ci, mi, ei, ti, ski, ui, ji))
+    return verdict(untraced(_admission, fl, ci, mi, ei, ti, ski, ui, ji))
